@@ -48,8 +48,9 @@ def findBinding (a : String) : Level → Option Binding
   | b :: bs => if b.alias == a then some b else findBinding a bs
 
 def bindingRow (b : Binding) : Val :=
-  -- whole-row reference; a single-column function alias denotes that column
-  .row "" b.vals
+  -- whole-row reference; the row of a set-returning function over a composite array (`unnest(nodecomposite[]) as x`) keeps its composite type
+  .row (if b.cols == ["id", "kind_ids", "properties"] then "nodecomposite"
+        else if b.cols == ["id", "start_id", "end_id", "kind_id", "properties"] then "edgecomposite" else "") b.vals
 
 def lookupQualifiedV (t c : String) : List Level → EM Val
   | [] => .error (.name ("missing FROM-clause entry " ++ t))
